@@ -191,8 +191,15 @@ class Transmission(WithObservers, LoggingTrait):
             and len(user_data) >= 5
         ):
             # print(f"udp/ipv4 compressed {user_data.hex()}")
-            udp_ip = UDPIPv4CompressedHeader.from_bits(bits=bytes_to_bits(user_data))
-            print(repr(udp_ip))
+            try:
+                udp_ip = UDPIPv4CompressedHeader.from_bits(
+                    bits=bytes_to_bits(user_data)
+                )
+                print(repr(udp_ip))
+            except (AssertionError, ValueError) as e:
+                # user data shorter than the (extended) compressed header it announces,
+                # this is only a diagnostic printout, transmission must still be finished
+                self.log_warning(f"UDP/IPv4 compressed header not decodable: {e}")
 
         # print("\n" * 3)
 
